@@ -12,5 +12,5 @@ CONSTANTS
   TypeModes = {"both", "none"}
   CutPlans = {"one", "each", "split"}
   Bug = {}
-INVARIANTS TypeOK CountIsItems SameConsumption AttrSetPreserved ReceiverReassembles SecretsOnlyInsideEncryptedFrames
+INVARIANTS TypeOK CountIsItems SameConsumption MaxSizeAllOrNothing AttrSetPreserved ReceiverReassembles SecretsOnlyInsideEncryptedFrames
 CHECK_DEADLOCK FALSE
